@@ -109,7 +109,7 @@ int main(int argc, char** argv) {
         if (shm->done) {
           for (int t = 1; t < nt; ++t) {
             long o = shm->observed[t];
-            if ((!strcmp(n, "publish_ok") || !strcmp(n, "publish_relaxed") || !strcmp(n, "publish_early")) && o != -1 && o != 42) t2.wrong_obs++;
+            if ((!strcmp(n, "publish_ok") || !strcmp(n, "publish_relaxed") || !strcmp(n, "publish_early") || !strcmp(n, "fence_publish") || !strcmp(n, "fence_missing")) && o != -1 && o != 42) t2.wrong_obs++;
             if (!strcmp(n, "rwlock") && o != 0 && o != 40) t2.wrong_obs++;
             if (!strcmp(n, "condvar") && o != 3) t2.wrong_obs++;
             if (!strcmp(n, "spin") && o != 9) t2.wrong_obs++;
@@ -138,7 +138,7 @@ int main(int argc, char** argv) {
     need(h1 == h2, "not deterministic");
     need(ty.unsupported == 0, "unsupported primitive");
     need(ty.crashed == 0, "crashed");
-    bool expect_race = !strcmp(n, "plain_race") || !strcmp(n, "publish_relaxed") || !strcmp(n, "publish_early") || !strcmp(n, "rwlock_bad");
+    bool expect_race = !strcmp(n, "plain_race") || !strcmp(n, "publish_relaxed") || !strcmp(n, "publish_early") || !strcmp(n, "rwlock_bad") || !strcmp(n, "fence_missing");
     if (expect_race) need(ty.race > 0, "race not detected");
     else need(ty.race == 0, "false race");
     if (!strcmp(n, "plain_race") || !strcmp(n, "rwlock_bad")) need(ty.race == ty.runs, "race must be reported in every run that contains both accesses");
